@@ -6,9 +6,10 @@
      lib.IsUpdateableInPlace          (URL / --prepipe: refuse)
      os.Stat(f)                       -> originalMode
      os.CreateTemp(dir(f), "mlr-in-place-")           new empty file, mode 0600, a name that does not exist
-     lib.WrapOutputHandle             (bzip2: Remove(temp), refuse; gzip/zlib: compressing wrapper)
+     lib.WrapOutputHandle             (bzip2: Remove(temp), refuse; gzip/zlib/zstd: compressing wrapper)
      stream.Stream -> temp            a sequence of appends (flushes of the buffered writer); error: Remove(temp)
-     wrapped.Close / handle.Close     error: Remove(temp)
+     wrapped.Close                    the compressor writes its buffered tail + trailer (appends); error: Remove(temp)
+     handle.Close                     error: Remove(temp)
      os.Rename(temp, f)               atomic replace; error: Remove(temp)
      os.Chmod(f, originalMode)        error: returned (the file already holds the new bytes)
    iterated over the file names, stopping at the first error.
@@ -29,6 +30,7 @@ Inductive op :=
 | OStat (f : path)
 | OCreate (tmp : path)
 | OAppend (tmp : path) (chunk : bytes)
+| OWrapClose (tmp : path)                (* Close() of the gzip/zlib/zstd wrapper: its writes are appends; no other effect *)
 | OClose (tmp : path)
 | ORename (tmp f : path)
 | OChmod (f : path) (m : fmode)
@@ -36,7 +38,7 @@ Inductive op :=
 
 Definition exec_op (o : op) (st : fsys) : fsys :=
   match o with
-  | OStat _ | OClose _ => st
+  | OStat _ | OClose _ | OWrapClose _ => st
   | OCreate tmp => set tmp (Some ([], temp_mode)) st
   | OAppend tmp ch =>
       match st tmp with Some (b, m) => set tmp (Some (b ++ ch, m)) st | None => st end
@@ -56,6 +58,7 @@ Inductive outcome :=
 | CreateFails                           (* CreateTemp error (unwritable directory) *)
 | RefusedAfterCreate                    (* bzip2: temp created, removed, refused *)
 | StreamFails (written : list bytes)    (* DSL run-time error, malformed input, write error ... after these flushes *)
+| WrapCloseFails (chunks : list bytes)   (* the recompressor's Close() fails while flushing its tail: Remove(temp) *)
 | CloseFails (chunks : list bytes)
 | RenameFails (chunks : list bytes)
 | ChmodFails (chunks : list bytes)
@@ -71,10 +74,12 @@ Definition file_ops (f tmp : path) (mode0 : fmode) (oc : outcome) : list op :=
   | CreateFails => [OStat f; OStat f]
   | RefusedAfterCreate => opening f tmp ++ [ORemove tmp]
   | StreamFails w => opening f tmp ++ appends tmp w ++ [ORemove tmp]
-  | CloseFails ch => opening f tmp ++ appends tmp ch ++ [OClose tmp; ORemove tmp]
-  | RenameFails ch => opening f tmp ++ appends tmp ch ++ [OClose tmp; ORemove tmp]   (* the failed rename changes nothing *)
-  | ChmodFails ch => opening f tmp ++ appends tmp ch ++ [OClose tmp; ORename tmp f]  (* the failed chmod changes nothing *)
-  | Succeeds ch => opening f tmp ++ appends tmp ch ++ [OClose tmp; ORename tmp f; OChmod f mode0]
+  (* chunks of the outcomes below = everything written by the stream AND by the wrapper's Close() before the next step *)
+  | WrapCloseFails ch => opening f tmp ++ appends tmp ch ++ [OWrapClose tmp; ORemove tmp]
+  | CloseFails ch => opening f tmp ++ appends tmp ch ++ [OWrapClose tmp; OClose tmp; ORemove tmp]
+  | RenameFails ch => opening f tmp ++ appends tmp ch ++ [OWrapClose tmp; OClose tmp; ORemove tmp]   (* the failed rename changes nothing *)
+  | ChmodFails ch => opening f tmp ++ appends tmp ch ++ [OWrapClose tmp; OClose tmp; ORename tmp f]  (* the failed chmod changes nothing *)
+  | Succeeds ch => opening f tmp ++ appends tmp ch ++ [OWrapClose tmp; OClose tmp; ORename tmp f; OChmod f mode0]
   end.
 
 Definition succeeds (oc : outcome) : bool := match oc with Succeeds _ => true | _ => false end.
@@ -82,7 +87,7 @@ Definition renames (oc : outcome) : bool := match oc with Succeeds _ | ChmodFail
 (* everything the stream hands to the temp file in this outcome *)
 Definition produced (oc : outcome) : bytes :=
   match oc with
-  | StreamFails w | CloseFails w | RenameFails w | ChmodFails w | Succeeds w => List.concat w
+  | StreamFails w | WrapCloseFails w | CloseFails w | RenameFails w | ChmodFails w | Succeeds w => List.concat w
   | _ => []
   end.
 
